@@ -388,6 +388,8 @@ pub struct Ghost {
     pub ever_bucket: BTreeSet<u64>,
     /// seconds component of the block time of instantiation / of the last successful cycle
     pub last_switch_s: u64,
+    /// the full block time of that event
+    pub last_switch_ns: u64,
 }
 
 pub fn valid_addr(s: &str) -> bool {
@@ -437,7 +439,12 @@ fn deposit_obstacle(pre: &Obs, sender: &str, dep: &Deposit, names: &Names) -> bo
             }
             need.iter().any(|(d, a)| pre.bal(sender, &Fung::Native(d.to_string())) < *a)
         }
-        Deposit::Cw20 { token, amount } => *amount == 0 || pre.bal(sender, &Fung::Cw20(token.clone())) < *amount,
+        Deposit::Cw20 { token, amount } => {
+            if names.is_sloppy20(token) {
+                return false;
+            }
+            *amount == 0 || pre.bal(sender, &Fung::Cw20(token.clone())) < *amount
+        }
         Deposit::Nft { coll, tid } => {
             let idx = names.colls.iter().position(|c| c == coll);
             if let Some(i) = idx {
@@ -956,10 +963,14 @@ pub fn expect(pre: &Obs, a: &Action, names: &Names, ghost: &Ghost, lenient: bool
             _ => reasons.push(Reason::WithdrawNotEntitled),
         },
         Act::FeeCycle => {
+            // refusal is judged on real elapsed time (nanoseconds): "never when fewer than 604800 seconds
+            // have elapsed"; acceptance is demanded in whole seconds (the contract's clock reading is
+            // second-granular): "once more than 604800 seconds have elapsed"
             let e = (now / 1_000_000_000).saturating_sub(ghost.last_switch_s);
-            if e < WEEK {
+            let real = now.saturating_sub(ghost.last_switch_ns);
+            if real < WEEK * 1_000_000_000 {
                 reasons.push(Reason::EarlyCycle);
-            } else if e == WEEK {
+            } else if e <= WEEK {
                 any = true;
             }
             eff.fee_flip = true;
